@@ -290,7 +290,7 @@ func (fx *FnCtx) Finalize() {
 			}
 			calls := map[string]bool{}
 			specCalls(ax.Expr, calls)
-			use := false
+			use := len(calls) == 0 // pure heap-shape axioms (grammar well-formedness) are always in scope
 			for c := range calls {
 				if fx.usedSpecs[c] {
 					use = true
